@@ -405,7 +405,9 @@ static int32 fragmentHSMessage(ssl_t *ssl, unsigned char *msg, int32 msgLen,
         {
             if (psGetPrngLocked(c, ssl->enBlockSize, ssl->userPtr) < 0)
             {
-                psTraceDtls("WARNING: psGetPrngLocked failed\n");
+                /* No fresh IV, no record */
+                psTraceDtls("psGetPrngLocked failed\n");
+                return MATRIXSSL_ERROR;
             }
             c += ssl->enBlockSize;
         }
